@@ -2,7 +2,7 @@
    (depth of a live node < heap size, by pigeonhole); no dangling id is read by the fueled primitives *)
 From Coq Require Import List ZArith QArith Bool Lia Arith.
 Import ListNotations.
-Require Import QV.common.Util QV.C09.Model QV.C09.Proofs QV.C09.Proofs2 QV.C09.Proofs3.
+Require Import QV.common.Util QV.C09.Model QV.C09.Proofs QV.C09.Proofs2 QV.C09.Proofs3 QV.C09.Proofs10.
 Local Opaque Qred.
 
 Inductive depth (h : heap) (r : id) : id -> nat -> Prop :=
@@ -228,6 +228,7 @@ Qed.
 Definition basic_op (o : op) : bool :=
   match o with
   | ONop | OSetWf _ _ | OSetRepCount _ _ | OSetRepDef _ _ | OQueryDur _ | OQueryBody _ | OEq _ _ => true
+  | OAddMeas _ _ => true      (* round 6 *)
   | _ => false
   end.
 
@@ -254,6 +255,12 @@ Proof.
     destruct (body_duration_total _ _ _ I x (S (S (length (st_heap s)))) Rx) as (h' & q & E); [lia|].
     exists h'. unfold bind, fueled. rewrite E. split; auto. eapply body_duration_inv; eauto.
   - inversion H; subst. split; [exact Logic.I|auto].
+  - (* OAddMeas: the memoising read cannot fail, the write is a plain store *)
+    eapply run_at_total; eauto. intros x Rx. cbv beta.
+    destruct (body_duration_total _ _ _ I x (S (S (length (st_heap s)))) Rx) as (h1 & q & E); [lia|].
+    destruct (add_measurements x ms (st_heap s)) as (h', res) eqn:EA.
+    assert (I' : Inv h' (st_root s)) by (eapply add_measurements_inv; eauto).
+    unfold add_measurements, bind, fueled in EA. rewrite E in EA. unfold modn in EA. inversion EA; subst. eauto.
 Qed.
 
 Lemma history_basic_total : forall ops s, sInv s -> forallb basic_op ops = true -> run_ok s ops /\ sInv (run s ops).
